@@ -45,6 +45,18 @@ Definition ev3_at (dx dy dz sx sy sz : nat) (c : list (list (list K))) (z y x : 
 Definition ev3 (dx dy dz sx sy sz : nat) (c : list (list (list K))) (mx my mz : nat) : list (list (list K)) :=
   map (fun z => map (fun y => map (fun x => ev3_at dx dy dz sx sy sz c z y x) (seq 0 mx)) (seq 0 my)) (seq 0 mz).
 
+(* spatial_derivatives(mode='bspline'): derivative of the spline with coefficient tensor c w.r.t. physical coordinates,
+   (hx, hy, hz) = spacing of the coefficient grid: the order-(dx, dy, dz) weights, divided by spacing^order *)
+Fixpoint fpow (h : K) (d : nat) : K := match d with O => 1 | S e => h * fpow h e end.
+Definition bsd2_at (dx dy sx sy : nat) (hx hy : K) (c : list (list K)) (y x : nat) : K :=
+  ev2_at dx dy sx sy c y x / (fpow hx dx * fpow hy dy).
+Definition bsd3_at (dx dy dz sx sy sz : nat) (hx hy hz : K) (c : list (list (list K))) (z y x : nat) : K :=
+  ev3_at dx dy dz sx sy sz c z y x / (fpow hx dx * fpow hy dy * fpow hz dz).
+Definition bsd2 dx dy sx sy hx hy (c : list (list K)) (mx my : nat) : list (list K) :=
+  map (fun y => map (fun x => bsd2_at dx dy sx sy hx hy c y x) (seq 0 mx)) (seq 0 my).
+Definition bsd3 dx dy dz sx sy sz hx hy hz (c : list (list (list K))) (mx my mz : nat) : list (list (list K)) :=
+  map (fun z => map (fun y => map (fun x => bsd3_at dx dy dz sx sy sz hx hy hz c z y x) (seq 0 mx)) (seq 0 my)) (seq 0 mz).
+
 (* ---- structure of the default algorithm in 1-D: one 4-tap correlation per offset (output channel o),
         then transpose(2, 3).flatten(2, 3): out[j * s + o] = channel_o[j] ---- *)
 Fixpoint conv4 (w c : list K) : list K :=
